@@ -249,9 +249,16 @@ func sameMultiset(a, b []string) bool {
 
 var tableWorld = gen.World{
 	Store: ir.Store{
-		{UID: ir.Ent("T0", "a"), Parents: []ir.Value{ir.Ent("T1", "g")}, Attrs: []ir.Field{ir.F("x", ir.Long(1))}},
-		{UID: ir.Ent("T1", "g")},
+		{UID: ir.Ent("T0", "a"), Parents: []ir.Value{ir.Ent("T1", "g"), ir.Ent("T1", "h")}, Attrs: []ir.Field{ir.F("x", ir.Long(1))}},
+		{UID: ir.Ent("T1", "g"), Parents: []ir.Value{ir.Ent("T1", "gg")}},
+		{UID: ir.Ent("T1", "h"), Parents: []ir.Value{ir.Ent("T1", "hh")}},
+		{UID: ir.Ent("T1", "gg"), Parents: []ir.Value{ir.Ent("T1", "top")}},
+		{UID: ir.Ent("T1", "hh"), Parents: []ir.Value{ir.Ent("T1", "top2"), ir.Ent("T1", "ghost")}},
+		{UID: ir.Ent("T1", "top")},
 		{UID: ir.Ent("T1", "r"), Attrs: []ir.Field{ir.F("owner", ir.Ent("T0", "a"))}},
+		{UID: ir.Ent("Action", "view"), Parents: []ir.Value{ir.Ent("Action", "readers"), ir.Ent("Action", "viewers")}},
+		{UID: ir.Ent("Action", "readers"), Parents: []ir.Value{ir.Ent("Action", "everything")}},
+		{UID: ir.Ent("Action", "viewers"), Parents: []ir.Value{ir.Ent("Action", "all2")}},
 	},
 	Req: ir.Request{Principal: ir.Ent("T0", "a"), Action: ir.Ent("Action", "view"), Resource: ir.Ent("T1", "r"), Context: ir.Rec(ir.F("k", ir.Long(5)))},
 }
@@ -264,7 +271,14 @@ func kindPolicy(permit bool, outcome string, variant int) *ir.Policy {
 	tr := ir.Lit(ir.Bool(true))
 	switch outcome {
 	case "satisfied":
-		switch variant % 3 {
+		switch variant % 5 {
+		case 3:
+			// scope and condition targets that are three parent links away, through the second parent, in list form
+			p.Action = ir.ScopeInSet([]ir.Value{ir.Ent("Action", "nothing"), ir.Ent("Action", "all2"), ir.Ent("Action", "everything")})
+			p.Conds = []ir.Cond{{When: true, Body: ir.Bin(ir.OpIn, ir.Var("principal"), ir.SetE(ir.Lit(ir.Ent("T1", "nope")), ir.Lit(ir.Ent("T1", "top2"))))}}
+		case 4:
+			p.Principal = ir.ScopeIn(ir.Ent("T1", "ghost"))
+			p.Conds = []ir.Cond{{When: true, Body: ir.IsIn(ir.Var("principal"), "T0", ir.SetE(ir.Lit(ir.Ent("T1", "top")), ir.Lit(ir.Ent("T1", "top2"))))}}
 		case 0:
 			p.Conds = []ir.Cond{{When: true, Body: tr}}
 		case 1:
@@ -275,7 +289,10 @@ func kindPolicy(permit bool, outcome string, variant int) *ir.Policy {
 			p.Resource = ir.ScopeIs("T1")
 		}
 	case "scope-mismatch":
-		switch variant % 3 {
+		switch variant % 4 {
+		case 3:
+			p.Principal = ir.ScopeIn(ir.Ent("T1", "r"))
+			p.Action = ir.ScopeInSet([]ir.Value{ir.Ent("Action", "everything")})
 		case 0:
 			p.Principal = ir.ScopeEq(ir.Ent("T0", "zz"))
 		case 1:
